@@ -170,3 +170,15 @@ CHECKS["C09"] = dict(
         "goroutine check is a stack-signature check for per-connection/per-channel functions (the library keeps an idle worker pool by design)",
     ],
 )
+
+CHECKS["C19"] = dict(
+    parts=[dict(pkg="net", run="^TestC19_")], level="exploration",
+    quick=dict(shards=8, checks=40, timeout=1200),
+    thorough=dict(shards=16, checks=600, timeout=4000),
+    assumptions=[
+        "quiescent = no call in flight, invariants re-checked until stable (up to 6 s) because the client needs a moment to notice a loss",
+        "the connection bound is measured at the proxy: at quiescent points, and as a high-water mark only over intervals without injected kills (proxy-side teardown of a killed connection may overlap the replacement)",
+        "back-off is asserted for genuine dial failures (connection refused); a peer that accepts TCP and then resets is outside the stated domain (the client treats the dial as success and retries without delay: noted in DESIGN.md)",
+        "observed dial gaps: lower bound 25 ms is sound; monotonicity within 25% tolerance; upper bound 1 s + 1.5 s slack",
+    ],
+)
